@@ -191,10 +191,18 @@ def rule_p2(F):
     for a in OPS:
         for b in OPS:
             key = "%s then %s" % (a, b)
+            # the relation is obtained by EVALUATING relative_associativity(a, b) (vf/symex: precedence(), associativity() and any
+            # helper followed, derived Ord by variant order); the structural reading below is only the fallback
             try:
-                got = rel(a, b)
-            except (ValueError, KeyError):
-                got = None
+                from .. import symex as _sx
+                got, _ev = _sx.run_function(rb.hir, {0: a, 1: b}, F=F)
+                if not isinstance(got, str) or isinstance(got, _sx.Sym):
+                    raise _sx.Unknown("result %r" % (got,))
+            except Exception:
+                try:
+                    got = rel(a, b)
+                except (ValueError, KeyError):
+                    got = None
             want = spec_rel(a, b)
             r.inst(key, {"prev": a, "next": b, "code": got, "grammar": want})
             if got != want:
